@@ -276,6 +276,32 @@ def h_scaled_decode(fmt, scale):
     return h
 
 
+SCALED_TIES = [   # (format, scale, value): scales whose reciprocal is inexact, values whose quotient sits on a rounding tie or an exact code
+    ('e8m0mxfp', 49, 49.0), ('e8m0mxfp', 49, 98.0), ('e8m0mxfp', 0.1, 0.1), ('e8m0mxfp', 3, 6.0), ('mxint', 49, -97.6171875), ('mxint', 49, 49 * 0.5078125), ('mxint', 3, 3 * 0.0078125),
+    ('e4m3mxfp', 49, 49 * 1.0625), ('e4m3mxfp', 0.1, 0.1 * 1.1875), ('e2m1mxfp', 49, 49 * 1.25), ('e2m1mxfp', 3, 3 * 2.5), ('e5m2mxfp', 49, 49 * 1.125), ('p3binary', 7, 7 * 1.125),
+    ('e3m2mxfp', 10, 10 * 1.125), ('float16', 49, 49 * 1.00048828125), ('float32', 0.1, 0.1 * 1.5), ('bfloat', 3, 3 * 1.00390625),
+]
+
+
+def h_scaled_ties():
+    """a scaled dtype encodes value / scale (one correctly rounded division), not value * (1 / scale)"""
+    def h(K):
+        import bitstring
+        fmt, scale, value = K.choice('case', SCALED_TIES)
+        bitstring.options.mxfp_overflow = 'saturate'
+        a = call(lambda: bitstring.Dtype(fmt, scale=scale).build(value))
+        b = call(lambda: bitstring.Dtype(fmt).build(value / scale))
+        if a.ok != b.ok:
+            return K.fail('a scaled dtype and the unscaled dtype on value / scale disagree on whether the value can be encoded', fmt=fmt, scale=scale, value=repr(value), scaled_exc=a.excname, unscaled_exc=b.excname)
+        if not a.ok:
+            return True
+        if not K.check(same(raw(a.value), raw(b.value)), 'scaled encode is not the unscaled encode of value / scale', fmt=fmt, scale=scale, value=repr(value), got=raw(a.value), expected=raw(b.value)):
+            return False
+        arr = call(lambda: bitstring.Array(bitstring.Dtype(fmt, scale=scale), [value]))
+        return K.check(arr.ok and same(raw(arr.value.data), raw(b.value)), 'Array with a scaled dtype', fmt=fmt, scale=scale)
+    return h
+
+
 def h_scaled_encode(fmt, scale):
     def h(K):
         import bitstring
@@ -437,6 +463,7 @@ def conditions(tier):
     for fmt, scale in ([('e4m3mxfp', 0.125), ('e2m1mxfp', 64.0)] if q else [('e4m3mxfp', 0.125), ('e2m1mxfp', 64.0), ('p4binary', 3.0), ('e3m2mxfp', 2.0 ** -3), ('e5m2mxfp', 64.0)]):
         add(f'C11.scaled-decode[{fmt},scale={scale}]', h_scaled_decode(fmt, scale), 'every code; 3 reading routes', D_MISC + D_PATH, fmt=fmt)
         add(f'C11.scaled-encode[{fmt},scale={scale}]', h_scaled_encode(fmt, scale), 'every float64 input', D_MISC + D_PATH, setup=_install_trees, fmt=fmt)
+    add('C11.scaled-ties', h_scaled_ties(), f'{len(SCALED_TIES)} concrete (format, scale, value) cases with an inexact reciprocal (chosen by solver forks)', D_MISC + D_PATH)
     for scale in ([0.125] if q else [0.125, 64.0, 3.0]):
         add(f'C11.scaled-encode[float64,scale={scale}]', h_scaled_encode('float64', scale), 'every float64 input (generic scale wrapper on an exact dtype)', D_MISC)
     for c in (['Bits'] if q else ['Bits', 'BitArray']):
